@@ -6,6 +6,20 @@ use crate::{BitFont, Buffer, CallbackAction, Caret, EngineResult, ParserError, S
 
 use super::{parse_next_number, Parser};
 
+/// Macro space of the terminal (the value the macro space report announces).
+const MAX_MACRO_LEN: usize = 32767;
+
+/// Appends `rec` `n` times, but never beyond the macro space.
+fn push_repeated(dst: &mut String, rec: &str, n: i32) {
+    if rec.is_empty() {
+        return;
+    }
+    let room = MAX_MACRO_LEN.saturating_sub(dst.len()) / rec.len();
+    for _ in 0..(n.max(0) as usize).min(room) {
+        dst.push_str(rec);
+    }
+}
+
 #[derive(Debug, Clone, Copy)]
 enum HexMacroState {
     FirstHex,
@@ -115,7 +129,7 @@ impl Parser {
                 HexMacroState::FirstHex => {
                     if ch == ';' && read_repeat {
                         read_repeat = false;
-                        (0..repeat_number).for_each(|_| marco_rec.push_str(&repeat_rec));
+                        push_repeated(&mut marco_rec, &repeat_rec, repeat_number);
                         continue;
                     }
                     if ch == '!' {
@@ -157,7 +171,7 @@ impl Parser {
             }
         }
         if read_repeat {
-            (0..repeat_number).for_each(|_| marco_rec.push_str(&repeat_rec));
+            push_repeated(&mut marco_rec, &repeat_rec, repeat_number);
         }
 
         self.macros.insert(id, marco_rec);
